@@ -14,7 +14,7 @@ def mux(text, design, technique):
     return dict(text=text, design=design, technique=technique, note=MUXNOTE)
 
 CLAIMED = {
- 'C01': mux('Theorems: lift_eq/comp_implements/impl_eq_ref (index-addressed implementation = keyed reference semantics on every well-formed trace, for flat pipelines of any length), C01_mux_lifetime (a key lifetime emits the local meaning of the pipeline on its items), C01_stage_map (plain = keyed for map); remaining dual-mode stages, tee_map and nesting are decided by the correspondence check (real mux path, real plain path, model L1/L2/plain) and by the oracle real-mux-per-group vs real-plain.', '§7 C01', 'Lean 4 proof (refinement by induction over trace and pipeline syntax) + differential correspondence; oracle: real keyed run per group vs real plain run'),
+ 'C01': mux('Theorems: C01_transparent (for EVERY flat pipeline of dual-mode operators, any length, and every well-formed multiplexed input - any groups, interleaving, sparse/reused slot indices - the items the index-addressed implementation delivers for a group equal the items the plain pipeline delivers on that group alone, whenever the plain run does not raise), built from impl_eq_ref / C02_confinement (mux side), C01_stage_map/filter/flat_map/scan/first/last/take/assert/assert1/to_list (each *_mux handler vs its RxPY / plain twin, as step simulations incl. early completion), agreeT_comp via C01_pipeline (plain composition = function composition on totals even when take/first stop the upstream and mask later errors), C01_builders (count, sum, min, max, mean, variance, stddev, formal.*, batch, distinct_until_changed, clip, fill_none, identity as the code composes them), C01_dual_closed. tee_map (three joins) and nesting under splitters are decided by the correspondence check (real mux path, real plain path, model L1/L2/plain) and by the oracle real-mux-per-group vs real-plain.', '§I.5, §7 C01', 'Lean 4 proof (refinement by induction over trace and pipeline syntax; compositional plain/keyed simulation) + differential correspondence; oracle: real keyed run per group vs real plain run'),
  'C02': mux('Theorems: C02_impl_eq_ref, C02_other_keys (events emitted for a key are a function of that key\'s own events), C02_lifetime (a lifetime emits the local meaning of its items and leaves the slot empty), C02_confinement (the same for the index-addressed implementation on every well-formed trace incl. sparse/reused indices) for flat pipelines of per-key operators; splitters/tee nesting by correspondence + oracle (context run vs standalone run of every observed lifetime).', '§7 C02', 'Lean 4 proof (simulation invariant between index-addressed store and keyed state) + differential correspondence; oracle: lifetime in context vs standalone real run'),
  'C03': mux('Theorems: C03_ref_preserves, C03_output, C03_root, C03_all_boundaries (every boundary of a supported pipeline carries a well-formed trace, closed when the input is); for splitters/tee the monitor is run on every real boundary trace (oracle) and boundary traces are compared with the model.', '§7 C03', 'Lean 4 proof (protocol monitor preserved by the keyed lift; structural recursion over the pipeline) + protocol monitor on real boundary traces'),
  'C04': mux('Theorems: C04_groups (no group completes before the parent; at completion groups are completed in first-appearance order and group k holds exactly the items of key k in source order), C04_partition, C04_first_appearance, about the mapper-dict splitter of one parent lifetime.', '§7 C04', 'Lean 4 proof (invariant over the item list) + differential correspondence; oracle on real boundary traces'),
